@@ -235,8 +235,10 @@ def build(variant):
     from pyoma2.setup import SingleSetup
 
     ss = SingleSetup(np.zeros((16, 2)), FS)
-    if variant == "SSI":
-        a = SSIcov(name="alg", br=3, ordmax=3)
+    if variant in ("SSI", "SSI-ordmin2"):
+        # ordmin only limits which orders are labelled/charted as stable; the pole table still has a column per model order,
+        # and a pick at order k means column k whatever ordmin is
+        a = SSIcov(name="alg", br=3, ordmax=3, ordmin=2 if variant == "SSI-ordmin2" else 0)
         res = SSIResult(Fn_poles=FN.copy(), Xi_poles=XI.copy(), Phi_poles=PHI.copy(), Lab=LAB.copy())
     elif variant == "pLSCF":
         a = pLSCF(name="alg", ordmax=3)
@@ -405,7 +407,8 @@ def _runner(hist):
 
 
 def explore(ctx):
-    plan = [("SSI", 4, 2), ("pLSCF", 3, 2), ("FDD", 4, 2)] if not ctx.thorough else [("SSI", 5, 3), ("pLSCF", 5, 3), ("FDD", 5, 3)]
+    plan = ([("SSI", 4, 2), ("pLSCF", 3, 2), ("FDD", 4, 2), ("SSI-ordmin2", 3, 1)] if not ctx.thorough
+            else [("SSI", 5, 3), ("pLSCF", 5, 3), ("FDD", 5, 3), ("SSI-ordmin2", 4, 2)])
     ctx.bounds = {"tables": {"Fn_poles": FN, "freq_lines_FDD": NF}, "click_x": XS, "click_y": YS, "variants": [
         {"variant": v, "events": [list(e) for e in events_for(v, ctx.thorough)], "merged_bfs_depth": d, "unmerged_depth": u} for v, d, u in plan]}
     for variant, depth, ud in plan:
